@@ -42,6 +42,19 @@ Theorem C14_impute_fills_missing : forall (K V : Type) (st iv : list (option V))
 Proof. exact FaultProofs.impute_fills_missing. Qed.
 Print Assumptions C14_impute_fills_missing.
 
+(* imputation never changes the number of stored points, and a store without a missing value is returned unchanged
+   whatever the imputed values are: the data of failure-free evaluations cannot be corrupted by the imputation path *)
+Theorem C14_impute_length : forall (V : Type) (st iv : list (option V)),
+  length iv = length st -> length (with_imputed V st (Some iv)) = length st.
+Proof. exact FaultProofs.impute_length. Qed.
+Print Assumptions C14_impute_length.
+
+Theorem C14_impute_complete_unchanged : forall (V : Type) (st iv : list (option V)),
+  length iv = length st -> (forall x, In x st -> x <> None) ->
+  with_imputed V st (Some iv) = st.
+Proof. exact FaultProofs.impute_complete_unchanged. Qed.
+Print Assumptions C14_impute_complete_unchanged.
+
 Example C14_nonvacuous :
   rebase [2; 0; 3; 1] 0 [1; 2; 4; 5] = ([[1]; []; [0; 2]; [0]], []).
 Proof. vm_compute. reflexivity. Qed.
